@@ -52,7 +52,7 @@ Print Assumptions stop_means_stop.
 Example c04_example :
   let c := {| maxw := 1; initw := 1; du := 10; fails := [] |} in
   option_map (fun s => (hist s, pc s))
-    (run c (init c) [Pace 4 false; Advance 7; Wake; Sel2Tick; Advance 4; DurationOver]) =
+    (run c (init c) [CallPace; Pace 4 false; Advance 7; Wake; Sel2Tick; Advance 4; DurationOver]) =
   Some ([(0, 0, 4, 7)], LCloseTicks) /\
-  run c (init c) [Pace 4 false; Advance 7; Wake; Sel2Tick; Advance 4; Pace 0 false] = None.
+  run c (init c) [CallPace; Pace 4 false; Advance 7; Wake; Sel2Tick; Advance 4; CallPace; Pace 0 false] = None.
 Proof. split; reflexivity. Qed.
